@@ -59,7 +59,7 @@ def main(tier):
     data = json.load(open(of))
     r = V.tlc(TT, os.path.join(V.SPEC, 'topology', 'Topology.cfg'), env={'TOPORECS': of}, timeout=3000, cont=True, mem='16g')
     ev.add_tlc('Topology: %d runs, %d recorded states' % (len(data['recs']), sum(len(x['states']) for x in data['recs'])), r)
-    nontriv = sum(int(m.group(2)) for m in re.finditer(r'<<"STAT", "topo", (\d+), (\d+)>>', r.out))
+    nontriv = sum(v[0] for v in V.stat(r.out, 'topo'))
     for inv, st in V.violating_states(r):
         for (i, t) in st.get('bad', []):
             x = data['recs'][i - 1]
